@@ -12,7 +12,7 @@ SPLIT = [("C15", "r15_1"), ("C15", "r15_4"), ("C15", "r15_5")]
 CLEAN = [("C15", "r15_2"), ("C15", "r15_3")]
 # (the segment == behind the "identical segments" marker of PlanarCurve.__and__ is R07.11)
 INTER = [("C07", "r07_11"), ("C14", "r14_1"), ("C14", "r14_2"), ("C14", "r14_3"), ("C14", "r14_4"), ("C14", "r14_5"), ("C14", "r14_7"),
-         ("C14", "r14_9")]
+         ("C14", "r14_9"), ("C14", "r14_10")]
 POINT = [("C02", "r02_1"), ("C02", "r02_2"), ("C18", "r18_9"), ("C18", "r18_5"), ("C18", "r18_6"), ("C18", "r18_11"),
          ("C12", "r12_2"), ("C13", "r13_4"), ("C17", "r17_8"), ("C17", "r17_9"), ("C18", "r18_13"), ("C18", "r18_14")]
 ALGEBRA = [("C13", "r13_4"), ("C17", "r17_8")]           # the arithmetic of points and boxes everything rests on
@@ -51,7 +51,8 @@ BORROW = {
     "C09": ALGEBRA,
     # the containment of two simple shapes answers through an axis-aligned shortcut (disjoint boxes) or through the
     # general branch, depending on how the drawing is turned: the two must agree (rows with / without box overlap)
-    "C12": ALGEBRA + [("C03", "r03_1")],
+    # ... and T(A) is computed by the library's own move / rotate / scale
+    "C12": ALGEBRA + [("C03", "r03_1"), ("C09", "r09_1"), ("C09", "r09_2"), ("C09", "r09_3"), ("C09", "r09_4")],
     # every constructor ends in the segments setter, which degree-reduces each segment (BezierCurve.clean)
     "C17": [("C13", "r13_4"), ("C18", "r18_13"), ("C15", "r15_2")],
     "C18": ALGEBRA,
